@@ -378,7 +378,9 @@ func runC01(a *args) error {
 	}
 	prelude := "From Verif Require Import Base.Prelude Store.Spec Store.Partition Store.Check Hnsw.Model Hnsw.Check.\nOpen Scope N_scope.\n"
 	defs := "Definition bad_model := Eval vm_compute in bad_idx hn_case_model_ok cases 0.\n" +
-		"Definition bad_oracle := Eval vm_compute in bad_idx hn_case_oracle_ok cases 0.\nPrint bad_model.\nPrint bad_oracle.\n"
+		"Definition bad_oracle := Eval vm_compute in bad_idx hn_case_oracle_ok cases 0.\nPrint bad_model.\nPrint bad_oracle.\n" +
+		"Definition info_obs_compared_exactly := Eval vm_compute in map hn_case_exact cases.\nPrint info_obs_compared_exactly.\n" +
+		"Definition info_obs_total := Eval vm_compute in map (fun cs => length (hc_obs cs)) cases.\nPrint info_obs_total.\n"
 	if err := writeShards(a.out, prelude, "hn_case", items, defs, 10); err != nil {
 		return err
 	}
